@@ -1041,6 +1041,7 @@ var c01FixedCorpus = []string{
 	"class C{static 0=f(1)}g(C[0])", "class C{static{if(f(1)){}}}", "function q(undefined){return undefined}f(q(1))",
 	"x=\"\\\n\"?1:2", "x=!\"\\\n\"", "if(a in b){}", "x=void(a in b)", "function t(p){if((p||'')instanceof q){}}x=t(a)",
 	"function t(p1){class C{static{let e=f(1);k(e,p1)}}}t(5)", "for(var i of[1]){const[]=[]}", "for(var i of[1]){function t(){}}f(typeof t)", "if(a){f(1)}else{async function t(){}}",
+	"let x=2;if(a){throw 1}else{let x=3;h(x)}h(x)", "if(a)throw 1;else{let l=1}", "function t(){let x=2;if(a){return 1}else{let x=3;h(x)}h(x)}t()",
 	"x=a===null||a===undefined", "x=a==null?b:a", "x=a?true:false", "x=!a?b:c", "x=a?a:b", "x=(f(1),a)?a:g(2)",
 }
 
